@@ -81,6 +81,44 @@ def run(m: Model, r: Report, tier: str) -> None:
             elif sw:
                 inner = [n for n in ast.walk(st) if isinstance(n, ast.Call) and isinstance(n.func, ast.Attribute) and ast.unparse(n.func.value) == "self"]
                 seq.append((inner[0].func.attr if inner else "?", sw[0]))
+    # each link of the chain, evaluated over (switch on/off) x (responder answers / declines): it answers iff the switch is on and
+    # the responder produced a response, and then returns exactly that response
+    from sa import miniterp
+    n_links = 0
+    for st in chain.node.body:
+        if not isinstance(st, ast.If):
+            continue
+        calls = [n for n in ast.walk(st.test) if isinstance(n, ast.Call) and isinstance(n.func, ast.Attribute) and ast.unparse(n.func.value) == "self"]
+        sws = [ast.unparse(n) for n in ast.walk(st.test) if isinstance(n, ast.Attribute) and ast.unparse(n.value) == "self.behavior"]
+        if not calls:
+            continue
+        n_links += 1
+        name = calls[0].func.attr
+        bad_rows = []
+        for sw in ((True, False) if sws else (True,)):
+            for res in ("RESP", None):
+                called = []
+                def oracle(call, env, res=res, called=called, name=name):
+                    if isinstance(call.func, ast.Attribute) and call.func.attr == name and ast.unparse(call.func.value) == "self":
+                        called.append(1)
+                        return res
+                    return NotImplemented
+                env = {"request": "REQ"}
+                for s_ in sws:
+                    env[s_] = sw
+                taken = bool(miniterp.eval_expr(st.test, env, oracle))
+                want = sw and res is not None
+                ret_ok = True
+                if taken:
+                    ret_ok = len(st.body) == 1 and isinstance(st.body[0], ast.Return) and st.body[0].value is not None and \
+                        miniterp.eval_expr(st.body[0].value, env, oracle) == "RESP"
+                if taken != want or not ret_ok or (not sw and called):
+                    bad_rows.append(f"switch={'on' if sw else 'off'}, responder={'answers' if res else 'declines'} -> {'answers' if taken else 'falls through'}"
+                                    + ("" if ret_ok else " (does not return the responder's response)") + (" (responder called although switched off)" if not sw and called else ""))
+        r.check(not bad_rows, "R2", f"{chain.qualname}#{name}-link",
+                f"link `{ast.unparse(st.test)[:70]}` behaves as {bad_rows}; it must answer iff its switch is on and the responder returned a response", loc=f"{chain.module.relpath}:{st.lineno}")
+    if n_links < 8:
+        raise AnalysisError(f"{chain.qualname}: only {n_links} chain links found")
     names = [a for a, _ in seq]
     r.check(names == ORDER, "R1", f"{chain.qualname}#order",
             f"responder order is {names}; ISO priority: service not supported, missing sub-function, sub-function not supported, "
